@@ -268,7 +268,7 @@ def run_harness(h, tier, rootdir, keep):
     res['functions'] = b['info']['functions']; res['externals'] = b['info']['externals']
     res['config'] = b['cfg']; res['defines'] = b['defines']
     timeout = h.get('timeout', 600 if tier == 'quick' else 3000)
-    mem = h.get('memgb', 12)
+    mem = h.get('memgb', 6)
     # witness twin; doubles as the loop-bound finder: a failed unwinding assertion raises that loop's bound and the
     # twin is run again (per-loop iterative deepening), so bounds are derived from the code, not guessed
     h = dict(h); h['unwindset'] = dict(h.get('unwindset', {}))
@@ -372,7 +372,8 @@ def cmd_check(prop, tier, only, keep, seed):
     root = tempfile.mkdtemp(prefix='vf_%s_' % prop, dir=os.environ.get('TMPDIR', '/tmp'))
     results = []
     try:
-        jobs = max(1, min(NCORES, len(hs)))
+        maxmem = max(h.get('memgb', 6) for h in hs)
+        jobs = max(1, min(NCORES, len(hs), int(56 // maxmem)))
         with ThreadPoolExecutor(max_workers=jobs) as ex:
             futs = {ex.submit(run_harness, h, tier, root, keep): h for h in hs}
             for f in as_completed(futs):
